@@ -1484,6 +1484,8 @@ def check_dist(case):
         total, given, out, nb = case["total"], case["given"], case["out"], case.get("batch", 0)
         g = torch.tensor(given) if not nb else torch.full((nb,), given)
         t = torch.tensor(total) if not nb else torch.full((nb,), total)
+        if case.get("float"):  # integer-valued FLOAT counts: what arg_constraints (nonnegative_integer) admit and tests/ sample with
+            g, t = g.float(), t.float()
         dist = PD.SimpleRandomSamplingWithoutReplacement(g, t, out)
         T = total if out is None else out
         if not dist.has_enumerate_support:
@@ -1557,6 +1559,8 @@ def cases_dist(ctx):
             for out in (None, total, total + 2):
                 for nb in (0, 3):
                     yield {"dist": "srswor", "total": total, "given": given, "out": out, "batch": nb}
+                    if out is None and total >= 1:
+                        yield {"dist": "srswor", "total": total, "given": given, "out": out, "batch": nb, "float": True}
     us = ["extreme"] + ["seed:%d" % (ctx.seed + k) for k in range(4 if quick else 40)]
     for dtype in ("float32", "float64"):
         for u in us:
